@@ -24,6 +24,8 @@ func main() {
 		cmdExprReplay(a)
 	case "expr-trace-check":
 		cmdExprTraceCheck(a)
+	case "c04-replay":
+		cmdC04Replay(a)
 	case "replay":
 		cmdReplay(a)
 	case "lex-trace-check":
